@@ -54,6 +54,7 @@ func init() {
 		return sb.String()
 	}
 	executors["silence"] = execSilence
+	executors["silencegarble"] = execSilenceGarble
 }
 
 // ------------------------------------------------------------ observed silence
@@ -140,6 +141,66 @@ func execSilence(in []string) string {
 		if gap < t35 {
 			return fmt.Sprintf("gap:%d:%d", int64(gap), int64(t35))
 		}
+	}
+	return "ok"
+}
+
+// execSilenceGarble: in = rate. The first reply is rejected early (unknown
+// function code in the 3-byte header); its tail arrives while the client is
+// flushing the line (the scripted connection feeds it at the moment the
+// flush's Read finds the queue empty). The tail is part of what the client
+// received, so the next request must not start earlier than t3.5 after it.
+func execSilenceGarble(in []string) string {
+	rate := atoi(in[0])
+	_, t35 := modbus.VerifSerialTimings(uint(rate))
+	c := sconn.New(false)
+	var mu sync.Mutex
+	var arrive []time.Time
+	var tailAt time.Time
+	stage := 0
+	c.OnWrite = func(c *sconn.Conn, b []byte) {
+		mu.Lock()
+		arrive = append(arrive, time.Now())
+		k := len(arrive)
+		mu.Unlock()
+		if k == 1 {
+			c.Feed([]byte{b[0], 0x55, 0x00}) // unknown function code: rejected at once
+			mu.Lock()
+			stage = 1
+			mu.Unlock()
+		} else if k == 2 {
+			c.Feed(rtuFrame(b[0], b[1], []byte{2, 0x12, 0x34}))
+		}
+	}
+	c.OnWait = func(c *sconn.Conn, readCall int) {
+		mu.Lock()
+		defer mu.Unlock()
+		if stage == 1 {
+			// the flush is waiting for stale bytes: here they come
+			stage = 2
+			tailAt = time.Now()
+			c.Feed([]byte{0xde, 0xad, 0xbe, 0xef, 0x01, 0x02})
+		}
+	}
+	mc, err := modbus.VerifNewClientOnConn(&modbus.ClientConfiguration{
+		URL: "rtuovertcp://x", Timeout: 3 * time.Second, Speed: uint(rate), Logger: quiet}, c)
+	if err != nil {
+		return "err:client"
+	}
+	mc.SetUnitId(1)
+	if _, err := mc.ReadRegisters(0, 1, modbus.HOLDING_REGISTER); err != modbus.ErrProtocolError {
+		return "err:first:" + errClass(err)
+	}
+	if _, err := mc.ReadRegisters(0, 1, modbus.HOLDING_REGISTER); err != nil {
+		return "err:second:" + errClass(err)
+	}
+	mu.Lock()
+	defer mu.Unlock()
+	if stage != 2 || len(arrive) != 2 {
+		return "err:script"
+	}
+	if gap := arrive[1].Sub(tailAt); gap < t35 {
+		return fmt.Sprintf("gap:%d:%d", int64(gap), int64(t35))
 	}
 	return "ok"
 }
@@ -260,6 +321,12 @@ func scnSilence(o *Out, r *Rng, thorough bool) {
 				ins = append(ins, itoa(rate)+" "+itoa(n)+" "+strings.Join(ds, ","))
 				o.Stat("silence:" + []string{"late-replies", "early-replies", "mixed"}[variant])
 			}
+		}
+	}
+	// rejected reply whose tail arrives during the flush (9600 / 14400 bps: t3.5 well above the flush window)
+	for _, out := range o.RunMany("silencegarble", []string{"9600", "14400", "4800"}) {
+		if out != "ok" {
+			o.Stat("silencegarble:not-ok")
 		}
 	}
 	for _, out := range o.RunMany("silence", ins) {
